@@ -59,8 +59,10 @@ func runC05(r *oblig.Report) {
 	fs := c.Reach([]*ssa.Function{build})
 	c.noteReach("reachable", fs)
 	scheduleClauses(c, r, fs, build)
-	r.Rule("R5.5", "instance-table", "every error origin reachable from Build is a sentinel or wraps one with %w", 13)
+	r.Rule("R5.5", "instance-table", "every error origin reachable from Build is a sentinel or wraps one with %w", 8)
 	e5path.ErrorProvenance(c.P, r, "R5.5", "graph", []string{"ErrModelCycle", "ErrTupleCycle", "ErrInvalidModel"}, fs)
+	r.Rule("R5.5r", "instance-table", "the distinct reasons for which the weighted builder rejects a model (error formats, sentinels returned as they are) are all still there", 10)
+	e5path.RejectionReasons(c.P, r, "R5.5r", "graph", fs)
 	r.Rule("R5.6", "instance-table", "no callee error is dropped on the way to Build's result", 9)
 	e5path.Propagation(c.P, r, "R5.6", fs, dropExceptions)
 	r.Rule("R1.6c", "instance-table", "loops of the weight calculation that collect (pending cycles, dependants, weights) run to completion unless they fail", 3)
